@@ -86,15 +86,16 @@ def onShiftAt (c : CalEnv) (rc : ResCal) (i : Int) : Bool :=
       h.on (weekday lt) (minuteOfDay lt)
     | none => projWorkAt c i
 
-/-- `initScoreboard` marks the slots `range(idx(a), min(idx(b), size))` of every global leave and
-    resource leave `[a, b)` with leave bits (Python list indexing: a negative index wraps around).
+/-- `initScoreboard` marks the slots `range(max(idx(a), 0), min(idx(b), size))` of every global leave and
+    resource leave `[a, b)` with leave bits (after the `fix:` a leave that begins before the project start
+    no longer wraps around to the end of the table).
     A marked slot with no time used yet is not available even if its first instant is on shift
     (only possible when the leave boundary lies inside the slot: calendars not aligned to the grid). -/
 def leaveMarkedAt (c : CalEnv) (rc : ResCal) (n : Int) : Bool :=
   (c.gleaves ++ rc.leaves).any (fun iv =>
-    let lo := Int.tdiv (iv.1 - c.start) c.G
+    let lo := max (Int.tdiv (iv.1 - c.start) c.G) 0
     let hi := min (Int.tdiv (iv.2 - c.start) c.G) c.size
-    (decide (lo ≤ n) && decide (n < hi)) || (decide (lo ≤ n - c.size) && decide (n - c.size < hi) && decide (n - c.size < 0)))
+    decide (lo ≤ n) && decide (n < hi))
 
 /-- daily limit period: calendar-day difference to the project start -/
 def dayIdxAt (c : CalEnv) (i : Int) : Int := dayOf (c.time i) - dayOf c.start
